@@ -1,4 +1,4 @@
-import CrabProofs.Lemmas.ArraySmashItvRefine
+import CrabProofs.Lemmas.ArraySmashItvFull
 import CrabProofs.Props.C14
 
 /-!
@@ -14,18 +14,40 @@ Driver/ArrXH.lean: `is_bottom` and the interval of every integer variable after 
 * `C14.smashitv_refines`: on values that satisfy the invariant `Inv` (size environment not bottom,
   one binding per variable) every exact operation that has a counterpart in the generic functor
   model `Crab.Dom.Smash` over the base `itvBase` (the interval domain, which satisfies every law
-  of `Smash.Base`) computes exactly what the generic operation computes — except the branch
-  `AssignNoSize` of `array_assign` (no size known: the code leaves the base domain alone), which
-  is covered by `Smash.untracked_update_sound`.
+  of `Smash.Base`) computes exactly what the generic operation computes — except two branches where
+  the code does less: `AssignNoSize` (`array_assign` with no size known: the base domain is left
+  alone, `C14.smashitv_assign_nosize`, covered by `Smash.untracked_update_sound`) and `JoinBottom`
+  (join / widening with an operand whose base is bottom: the other operand is returned,
+  `C14.smashitv_join_bottom`).
 * `C14.smashitv_step_sound`, `C14.smashitv_history_sound`, `C14.smashitv_load_sound`,
   `C14.smashitv_never_bottom_on_reachable`: the statements of `C14.smash_*` for the exact model,
   with `set_to_top` and `+=` of syntactic constraint systems in the language, and the conclusion
   in terms of what the harness dumps (`is_bottom()`, `at(x)`), for all histories WITHOUT meet.
-* `C14.smashitv_load_sound_counterexample`: with `operator&` the statement is FALSE for the code as
-  it is (genuine defect, reproduced on the real domain): `operator|` with an operand whose base is
-  bottom keeps the summary of the other operand but loses its size (the size environment of a
-  bottom value is not bottom); the array is then untracked, stores to it are ignored, and a meet
-  with a value that tracks the array revives the stale summary.
+* `C14.smashitv_load_sound_counterexample`: with `operator&` in the language the full statement is
+  false for the code as it is (reproduced on the real domain, replay line below): `array_init`
+  over an EMPTY range (`ub < lb`) sets the summary to the initial value although no cell holds it;
+  the meet of two such values with different initial values is bottom, although the concrete
+  state (the array without any cell) belongs to both.
+
+* `C14.smashitv_meet_sound`, `C14.smashitv_step_sound_full`, `C14.smashitv_history_sound_full`,
+  `C14.smashitv_load_sound_full`: the whole operation language, `operator&` INCLUDED, is sound
+  under two client contracts that exclude exactly the counterexamples: `array_init` initialises
+  at least one cell (`lb ≤ ub`, in the concrete relation of the steps `XOp.toStepC`) and
+  `array_assign` is used between arrays of the same element size (`XOp.SizeOk`, decidable).  The
+  invariant is `Inv2`: `Inv`, every recorded size is the element size of its array (`SizesOk`),
+  and no summary of an untracked array nor any temporary is bound in the base environment (`ND`,
+  proved through the frame property of the constraint solver, Lemmas/IDomFrame.lean).
+* `C14.smashitv_load_sound_contract_counterexample`: the second contract is needed too (replayed on
+  the real code): `array_assign` between arrays of different element sizes records a wrong size,
+  the join drops it but keeps the summary, a meet revives it.
+
+History.  On the pinned tree the statement with meet also failed without empty ranges:
+`operator|` with an operand whose base is bottom kept the summary of the other operand but lost
+its size, and a later meet revived the stale summary (`(arr.hist smash-intervals (par 1 1 8 8)
+(esz 4 4) (ops (assume 0 (le (lin 1))) (ainit 1 a0 (lin 0) (lin 7) (lin 7)) (join 2 0 1) (astore 2
+a0 (lin 0) (lin 5) 0) (astore 1 a0 (lin 0) (lin 5) 0) (meet 0 2 1) (aload 0 v2 a0 (lin 0))))` gave
+`v2 = [7,7]`, the execution loads 5).  Repaired by commit 9186671 (early return of join /
+widening on bottom operands), which this model follows.
 -/
 open Crab Crab.Dom Crab.Dom.Arr Crab.Dom.SmashItv
 
@@ -36,10 +58,10 @@ theorem C14.smashitv_run_eq (esz : Nat → Nat) (o : XOp) (p : Pool St) :
 
 /-- **Refinement of the generic proved model** (see the header). -/
 theorem C14.smashitv_refines (esz : Nat → Nat) (o : XOp) (g : Smash.Op) (hg : o.toOp = some g) (p : Pool St)
-    (hI : ∀ i, Inv (p i)) (hk : ¬ o.AssignNoSize p) :
+    (hI : ∀ i, Inv (p i)) (hk : ¬ o.AssignNoSize p) (hj : ¬ o.JoinBottom p) :
     ∃ hs : ∀ i, Inv ((o.toStep esz).run p i),
       ∀ i, absS ((o.toStep esz).run p i) (hs i).2 = (g.toStep (Bs := itvBase) esz).run (absPool p hI) i :=
-  refines esz o g hg p hI hk
+  refines esz o g hg p hI hk hj
 
 /-- in the branch `AssignNoSize` the code does nothing -/
 theorem C14.smashitv_assign_nosize (esz : Nat → Nat) (d lhs rhs : Nat) (p : Pool St)
@@ -49,6 +71,19 @@ theorem C14.smashitv_assign_nosize (esz : Nat → Nat) (d lhs rhs : Nat) (p : Po
   split
   · rename_i h; rw [h]
   · rfl
+
+/-- in the branch `JoinBottom` the code returns the operand whose base is not known to be bottom -/
+theorem C14.smashitv_join_bottom (esz : Nat → Nat) (d a b : Nat) (p : Pool St)
+    (hk : (XOp.join d a b).JoinBottom p) :
+    ((XOp.join d a b).toStep esz).run p = p.set d (if (p a).isBottom then p b else p a) ∧
+    ((XOp.widen d a b).toStep esz).run p = p.set d (if (p a).isBottom then p b else p a) := by
+  have hk' : (p a).isBottom = true ∨ (p b).isBottom = true := hk
+  simp only [XOp.toStep, Step.run]
+  cases na : (p a).isBottom with
+  | true => simp [join_bottom_l na, widen_bottom_l na]
+  | false =>
+    have nb : (p b).isBottom = true := hk'.elim (fun h => absurd h (by simp [na])) id
+    simp [join_bottom_r na nb, widen_bottom_r na nb]
 
 /-- every operation other than meet preserves the invariant and is sound w.r.t. `γx` -/
 theorem C14.smashitv_step_sound (esz : Nat → Nat) (o : XOp) (hm : o.isMeet = false) :
@@ -119,46 +154,167 @@ theorem C14.smashitv_initial (esz : Nat → Nat) (c : CPool CState) :
     (∀ i, Inv ((fun _ => St.top : Pool St) i)) ∧ ∀ i s, c i s → γx esz ((fun _ => St.top : Pool St) i) s :=
   ⟨fun _ => inv_top, fun _ s _ => γx_top s⟩
 
-/-! ### the statement fails with meet: a stale summary revived (genuine defect of the code) -/
+/-! ### the statement fails with meet: `array_init` over an empty range (checked on the real code) -/
 
 namespace C14xcex
 
 def k (n : Int) : SLin := ⟨n, []⟩
 
-/-- `pool[0] += {1 <= 0}` (bottom); `array_init(a0, 4, 0, 7, 7)` on pool[1]; `pool[2] = pool[0] | pool[1]`
-    (a0 no longer tracked, summary still `[7,7]`); `a0[0] := 5` (weak) on pool[2] (ignored) and on
-    pool[1] (summary `[5,7]`); `pool[0] = pool[2] & pool[1]` -/
+/-- `array_init(a0, 4, 0, -1, 5)` on pool[0], `array_init(a0, 4, 0, -1, 7)` on pool[1] (empty
+    ranges: a0 has no cell), `pool[2] = pool[0] & pool[1]` (bottom: `[5,5] & [7,7]` on the summary),
+    `a0[0] := 9` on pool[2].  Replay line:
+    `(arr.hist smash-intervals (par 1 1 8 8) (esz 4 4) (ops (ainit 0 a0 (lin 0) (lin -1) (lin 5))
+    (ainit 1 a0 (lin 0) (lin -1) (lin 7)) (meet 2 0 1) (astore 2 a0 (lin 0) (lin 9) 0)
+    (aload 2 v2 a0 (lin 0))))` : the real domain answers `is_bottom` after the meet. -/
 def ops : List XOp :=
-  [.assume 0 [⟨.leq, k 1⟩], .aInit 1 0 (k 0) (k 7) (k 7), .join 2 0 1,
-   .aStore 2 0 (k 0) (k 5) false, .aStore 1 0 (k 0) (k 5) false, .meet 0 2 1]
+  [.aInit 0 0 (k 0) (k (-1)) (k 5), .aInit 1 0 (k 0) (k (-1)) (k 7), .meet 2 0 1,
+   .aStore 2 0 (k 0) (k 9) false]
 
 def s0 : CState := ⟨fun _ => 0, fun _ => Mem.empty⟩
-def s1 : CState := s0.setArr 0 (Mem.init 4 0 7 7)
-def s2 : CState := s1.setArr 0 ((s1.ar 0).store 0 5)
-def s3 : CState := s2.setVar 2 5
+def s1 : CState := s0.setArr 0 Mem.empty
+def s2 : CState := s1.setArr 0 ((s1.ar 0).store 0 9)
+def s3 : CState := s2.setVar 2 9
 
 end C14xcex
 
 open C14xcex in
-/-- the model (= the code, see the correspondence) answers `v2 = [7,7]` for the load `v2 := a0[0]`
-    after the history `C14xcex.ops`; the concrete execution loads 5 -/
+/-- the model (= the code, see the correspondence and the replay line) reports bottom, hence
+    `v2 = bot`, for the load `v2 := a0[0]` after the history `C14xcex.ops`; the concrete execution
+    loads 9 -/
 theorem C14.smashitv_load_sound_counterexample : ¬ C14.smashitv_load_sound_Statement := by
   intro h
+  have hi5 : cInit 4 0 (k 0).eval (k (-1)).eval (k 5).eval s0 = some s1 := by
+    show some (s0.setArr 0 (Mem.init 4 0 (-1) 5)) = some s1
+    rw [init_empty_range]; rfl
+  have hi7 : cInit 4 0 (k 0).eval (k (-1)).eval (k 7).eval s0 = some s1 := by
+    show some (s0.setArr 0 (Mem.init 4 0 (-1) 7)) = some s1
+    rw [init_empty_range]; rfl
   have hv := h (fun _ => 4) C14xcex.ops (fun _ => St.top) (fun _ s => s = s0)
-    (fun _ => inv_top) (fun _ s _ => γx_top s) 0 2 0 (k 0) s2 s3
+    (fun _ => inv_top) (fun _ s _ => γx_top s) 2 2 0 (k 0) s2 s3
     (by
       simp only [C14xcex.ops, toHist, List.map_cons, List.map_nil, collHist, XOp.toStep]
       simp only [List.foldl, Step.coll, CPool.set]
-      have e1 : s1 = s0.setArr 0 (Mem.init 4 0 7 7) := rfl
-      refine ⟨⟨s1, Or.inr ⟨s0, rfl, rfl⟩, rfl, ?_⟩, ⟨s1, ⟨s0, rfl, rfl⟩, rfl, ?_⟩⟩
-      · intro hf; exact absurd hf (by decide)
-      · intro hf; exact absurd hf (by decide))
+      refine ⟨s1, ⟨⟨s0, rfl, hi5⟩, ⟨s0, rfl, hi7⟩⟩, rfl, ?_⟩
+      intro hf; exact absurd hf (by decide))
     (by rfl)
-  have he : (runHist (fun _ => St.top) (toHist (fun _ => 4) (C14xcex.ops ++ [XOp.aLoad 0 2 0 (k 0)])) 0).atVar 2
-      = ⟨.fin 7, .fin 7⟩ := by decide
+  have he : (runHist (fun _ => St.top) (toHist (fun _ => 4) (C14xcex.ops ++ [XOp.aLoad 2 2 0 (k 0)])) 2).atVar 2
+      = Itv.bot := by decide
   rw [he] at hv
   revert hv
   decide
+
+/-! ### the whole language, meet included, under the two client contracts -/
+
+/-- the contract-carrying steps compute the same abstract values (the ones the driver compares) -/
+theorem C14.smashitv_run_eq_contract (esz : Nat → Nat) (ops : List XOp) (p : Pool St) :
+    runHist p (toHistC esz ops) = runHist p (toHist esz ops) := by
+  induction ops generalizing p with
+  | nil => rfl
+  | cons o rest ih =>
+    simp only [toHistC, toHist, List.map_cons, runHist, List.foldl_cons] at ih ⊢
+    have e : (o.toStepC esz).run p = (o.toStep esz).run p := by cases o <;> rfl
+    rw [e]; exact ih _
+
+/-- **`operator&` is sound** on values that satisfy `Inv2`, for states in which every tracked array
+    has a cell (`γ2`) -/
+theorem C14.smashitv_meet_sound (esz : Nat → Nat) (a b : St) (s : CState) (ha : Inv2 esz a) (hb : Inv2 esz b)
+    (ga : γ2 esz a s) (gb : γ2 esz b s) : Inv2 esz (St.meet a b) ∧ γ2 esz (St.meet a b) s :=
+  ⟨inv2_meet ha hb, meet_sound ha hb ga gb, ne_meet ha hb ga.2 gb.2⟩
+
+theorem C14.smashitv_step_sound_full (esz : Nat → Nat) (o : XOp) (hs : o.SizeOk esz) :
+    (o.toStepC esz).SoundInv (Inv2 esz) (γ2 esz) := step_soundInv2 esz o hs
+
+/-- **History soundness for the whole operation language** (meet included) -/
+theorem C14.smashitv_history_sound_full (esz : Nat → Nat) (ops : List XOp) (hs : ∀ o ∈ ops, o.SizeOk esz)
+    (p : Pool St) (c : CPool CState) (hI : ∀ i, Inv2 esz (p i)) (h0 : ∀ i s, c i s → γ2 esz (p i) s) :
+    ∀ i s, collHist c (toHistC esz ops) i s → γ2 esz (runHist p (toHistC esz ops) i) s := by
+  refine (history_sound_inv (Inv2 esz) (γ2 esz) (toHistC esz ops) ?_ p c hI h0).2
+  intro st hst
+  simp only [toHistC, List.mem_map] at hst
+  obtain ⟨o, ho, rfl⟩ := hst
+  exact step_soundInv2 esz o (hs o ho)
+
+/-- **C14 on the exact model, meet included**: the value a concrete load returns is in the interval
+    the domain reports for the loaded variable, after any history of the whole language that
+    respects the two client contracts -/
+theorem C14.smashitv_load_sound_full (esz : Nat → Nat) (ops : List XOp) (hs : ∀ o ∈ ops, o.SizeOk esz)
+    (p : Pool St) (c : CPool CState) (hI : ∀ i, Inv2 esz (p i)) (h0 : ∀ i s, c i s → γ2 esz (p i) s)
+    (d x a : Nat) (i : SLin) (s s' : CState)
+    (hc : collHist c (toHistC esz ops) d s) (hl : cLoad (esz a) x a i.eval s = some s') :
+    Itv.mem (s'.iv x) ((runHist p (toHist esz (ops ++ [XOp.aLoad d x a i])) d).atVar x) := by
+  have hs' : ∀ o ∈ ops ++ [XOp.aLoad d x a i], o.SizeOk esz := by
+    intro o ho
+    rcases List.mem_append.1 ho with h | h
+    · exact hs o h
+    · simp only [List.mem_singleton] at h; subst h; trivial
+  have hcoll : collHist c (toHistC esz (ops ++ [XOp.aLoad d x a i])) d s' := by
+    simp only [toHistC, List.map_append, List.map_cons, List.map_nil, collHist, List.foldl_append,
+      List.foldl_cons, List.foldl_nil]
+    simp only [XOp.toStepC, XOp.toStep, Step.coll, CPool.set, if_true]
+    exact ⟨s, hc, hl⟩
+  rw [← C14.smashitv_run_eq_contract]
+  exact (γx_at (C14.smashitv_history_sound_full esz _ hs' p c hI h0 d s' hcoll).1).2 x
+
+/-- the initial pool of the harness satisfies the hypotheses of the `_full` theorems -/
+theorem C14.smashitv_initial_full (esz : Nat → Nat) (c : CPool CState) :
+    (∀ i, Inv2 esz ((fun _ => St.top : Pool St) i)) ∧ ∀ i s, c i s → γ2 esz ((fun _ => St.top : Pool St) i) s :=
+  ⟨fun _ => inv2_top, fun _ s _ => γ2_top s⟩
+
+/-- the statement of `smashitv_load_sound_full` WITHOUT the hypothesis `SizeOk` -/
+def C14.smashitv_load_sound_contract_Statement : Prop :=
+  ∀ (esz : Nat → Nat) (ops : List XOp) (p : Pool St) (c : CPool CState),
+    (∀ i, Inv2 esz (p i)) → (∀ i s, c i s → γ2 esz (p i) s) →
+    ∀ (d x a : Nat) (i : SLin) (s s' : CState),
+      collHist c (toHistC esz ops) d s → cLoad (esz a) x a i.eval s = some s' →
+      Itv.mem (s'.iv x) ((runHist p (toHist esz (ops ++ [XOp.aLoad d x a i])) d).atVar x)
+
+namespace C14xcex
+
+/-- element sizes 4 (a0) and 8 (a1); `array_assign(a1, a0)` on pool[0] records the size 4 for a1
+    (no concrete execution: the sizes differ); pool[1] initialises a1 properly; the join drops the
+    two different sizes of a1 but keeps its summary `[1,1]`; the store `a1[0] := 5` is ignored on
+    pool[2] and a meet with pool[1] revives the stale summary.  Replay line (the real domain
+    answers `v2 = [1,1]`, the execution loads 5):
+    `(arr.hist smash-intervals (par 1 1 8 8) (esz 4 8) (ops (ainit 0 a0 (lin 0) (lin 7) (lin 1))
+    (aassign 0 a1 a0) (ainit 1 a1 (lin 0) (lin 15) (lin 1)) (join 2 0 1) (astore 2 a1 (lin 0) (lin 5) 0)
+    (astore 1 a1 (lin 0) (lin 5) 0) (meet 0 2 1) (aload 0 v2 a1 (lin 0))))` -/
+def ops2 : List XOp :=
+  [.aInit 0 0 (k 0) (k 7) (k 1), .aAssign 0 1 0, .aInit 1 1 (k 0) (k 15) (k 1), .join 2 0 1,
+   .aStore 2 1 (k 0) (k 5) false, .aStore 1 1 (k 0) (k 5) false, .meet 0 2 1]
+
+def esz2 : Nat → Nat := fun a => if a = 0 then 4 else 8
+def t1 : CState := s0.setArr 1 (Mem.init 8 0 15 1)
+def t2 : CState := t1.setArr 1 ((t1.ar 1).store 0 5)
+def t3 : CState := t2.setVar 2 5
+
+end C14xcex
+
+open C14xcex in
+/-- `SizeOk` is needed: an `array_assign` between arrays of different element sizes (outside the
+    word-level assumption, which `array_assign` does not check) leaves a stale summary -/
+theorem C14.smashitv_load_sound_contract_counterexample : ¬ C14.smashitv_load_sound_contract_Statement := by
+  intro h
+  have hv := h esz2 ops2 (fun _ => St.top) (fun _ s => s = s0)
+    (fun _ => inv2_top) (fun _ s _ => γ2_top s) 0 2 1 (k 0) t2 t3
+    (by
+      simp only [ops2, toHistC, List.map_cons, List.map_nil, collHist, XOp.toStepC, XOp.toStep]
+      simp only [List.foldl, Step.coll, CPool.set]
+      refine ⟨⟨t1, Or.inr ⟨s0, rfl, rfl, by decide⟩, rfl, ?_⟩, ⟨t1, ⟨s0, rfl, rfl, by decide⟩, rfl, ?_⟩⟩
+      · intro hf; exact absurd hf (by decide)
+      · intro hf; exact absurd hf (by decide))
+    (by rfl)
+  have he : (runHist (fun _ => St.top) (toHist esz2 (ops2 ++ [XOp.aLoad 0 2 1 (k 0)])) 0).atVar 2
+      = ⟨.fin 1, .fin 1⟩ := by decide
+  rw [he] at hv
+  revert hv
+  decide
+
+/-- non-vacuity of the `_full` theorems: two initialisations over non-empty ranges, a weak store
+    on one side, a meet and a load: the model reports `v0 = [5,5]` -/
+example : (runHist (fun _ => St.top) (toHist (fun _ => 4)
+    [XOp.aInit 0 0 (C14xcex.k 0) (C14xcex.k 3) (C14xcex.k 5), XOp.aInit 1 0 (C14xcex.k 0) (C14xcex.k 3) (C14xcex.k 5),
+     XOp.aStore 1 0 (C14xcex.k 0) (C14xcex.k 9) false, XOp.meet 2 0 1, XOp.aLoad 2 0 0 (C14xcex.k 0)]) 2).atVar 0
+      = ⟨.fin 5, .fin 5⟩ := by decide
 
 /-- non-vacuity of `smashitv_load_sound`: after `array_init(a0, 4, 0, 3, 5)` the load `v0 := a0[0]`
     is defined on the concrete side and the domain reports `v0 = [5,5]` -/
